@@ -4,7 +4,7 @@ FullBelow = 16
 OaepKHs <- SmallOaepKHs
 DbKHs <- None
 ShortKHs <- SmallShortKHs
-Rt15Ks = {12, 13, 14, 15, 16, 24}
+Rt15Ks = {11, 12, 13, 14, 15, 16, 17, 18, 19, 20, 24, 31, 32, 33, 48}
 RtOaepKHs <- SmallRtOaepKHs
 RtAll = TRUE
 Emit = TRUE
